@@ -3,6 +3,8 @@ import HappyProofs.C17.ChainReach3
 import HappyProofs.C17.MLMerge
 import HappyProofs.C17.MLConv
 import HappyProofs.C17.MLSched
+import HappyProofs.C17.MLMGossip
+import HappyProofs.C17.MLMRun
 /-!
 # C17 — property theorems
 
@@ -303,5 +305,165 @@ example :
     let c : ML.Version := ⟨3, 15, 1, [1, 3]⟩
     (∀ x ∈ [a, b, c], ∀ y ∈ [a, b, c], ML.dominates 2 y.vc x.vc = true → ML.vlt x y) ∧
     ML.mergeAll 2 none [a, b, c] = some c ∧ ML.mergeAll 2 none [c, b, a, b] = some c := by decide
+
+/-! ## multi-leader with a merging conflict resolver (`VectorClockMerge(merge_fn)`, `CustomResolver`)
+
+The resolver returns a *third* version for two concurrent ones: the join of the values (`|||` on item
+masks = set union, or `max`), the later timestamp, the greater writer, the pointwise-max clock
+(`MLM.joinVer`).  `MLM` is the `LeaderNode` transition system of `ML` with that `_pick` and with
+`_install` storing the winner of `_pick`.
+
+* `_install` stores `pick` (`mlm_install_is_pick`) — not the incoming version;
+* on vector clocks `pick` is the pointwise maximum in every branch (`mlm_pick_clock_is_max`), so the
+  clock a replica ends with does not depend on the order / duplication of what it merged
+  (`mlm_merge_clock_order_independent`);
+* concurrent versions merge to the join of all their values in any order
+  (`mlm_concurrent_merge_order_independent`);
+* delivering every `Replicate` is **not** enough for agreement when a version that was overwritten
+  reaches a replica before its successor (`mlm_replicate_order_matters`, a recorded run of the real
+  code) — hence "anti-entropy having run" in the property;
+* between versions with the same clock `_install` is the pure join of the values
+  (`mlm_same_clock_install_is_join`), and complete gossip of joins ends in agreement
+  (`mlm_gossip_complete_converges`; `Spec.gossipComplete` evaluates its hypothesis on a delivery log). -/
+
+/-- `_install` stores the winner of `_pick` (value and version), and only at that replica and key -/
+theorem mlm_install_is_pick (s : MLM.St) (i k : Nat) (inc : ML.Version) :
+    (MLM.install s i k inc).1.vers i k = MLM.mergeOpt s.n s.join (s.vers i k) inc ∧
+    ((MLM.install s i k inc).2 = true →
+      (MLM.install s i k inc).1.store i k = some (MLM.pick s.n s.join (s.vers i k) inc).val) ∧
+    (∀ i' k', ¬ (i' = i ∧ k' = k) → (MLM.install s i k inc).1.vers i' k' = s.vers i' k' ∧
+      (MLM.install s i k inc).1.store i' k' = s.store i' k') := by
+  unfold MLM.install MLM.mergeOpt
+  by_cases ht : MLM.takes s.n (s.vers i k) inc = true
+  · rw [if_pos ht, if_pos ht]
+    refine ⟨?_, fun _ => ?_, fun i' k' hne => ⟨?_, ?_⟩⟩
+    · show upd2 s.vers i k _ i k = _
+      rw [upd2_apply]; simp
+    · show upd2 s.store i k _ i k = _
+      rw [upd2_apply]; simp
+    · show upd2 s.vers i k _ i' k' = _
+      rw [upd2_apply, if_neg hne]
+    · show upd2 s.store i k _ i' k' = _
+      rw [upd2_apply, if_neg hne]
+  · rw [if_neg ht, if_neg ht]
+    refine ⟨rfl, ?_, fun _ _ _ => ⟨rfl, rfl⟩⟩
+    intro h; exact absurd h (by simp)
+
+/-- whichever branch `_pick` takes, the clock of its result is the pointwise maximum -/
+theorem mlm_pick_clock_is_max (n : Nat) (j : MLM.Join) (e inc : ML.Version) (c : Nat) (hc : c < n) :
+    ML.vcGet (MLM.pick n j (some e) inc).vc c = max (ML.vcGet e.vc c) (ML.vcGet inc.vc c) :=
+  MLM.pick_clock n j e inc c hc
+
+/-- two replicas that merged the same *set* of versions, in any orders and multiplicities, end with
+    the same vector clock — no hypothesis on the versions -/
+theorem mlm_merge_clock_order_independent (n : Nat) (j : MLM.Join) (l1 l2 : List ML.Version)
+    (hset : ∀ v, v ∈ l1 ↔ v ∈ l2) (c : Nat) (hc : c < n) :
+    MLM.clkOf (MLM.mergeAll n j none l1) c = MLM.clkOf (MLM.mergeAll n j none l2) c := by
+  rw [MLM.mergeAll_clock n j l1 none c hc, MLM.mergeAll_clock n j l2 none c hc, MLM.clkMax_set_eq l1 l2 hset c]
+
+/-- concurrent versions (each neither dominating nor dominated by what was merged before it) merge
+    to the join of all their values, whatever the order -/
+theorem mlm_concurrent_merge_order_independent (n : Nat) (j : MLM.Join) (l1 l2 : List ML.Version)
+    (hp : l1.Perm l2) (h1 : MLM.AllConcurrent n j none l1 = true) (h2 : MLM.AllConcurrent n j none l2 = true) :
+    MLM.valD (MLM.mergeAll n j none l1) = MLM.valD (MLM.mergeAll n j none l2) ∧
+    MLM.valD (MLM.mergeAll n j none l1) = MLM.joinVals j 0 l1 := by
+  rw [MLM.mergeAll_concurrent_val n j l1 none h1, MLM.mergeAll_concurrent_val n j l2 none h2]
+  exact ⟨MLM.joinVals_perm j l1 l2 hp _, rfl⟩
+
+/-- non-vacuity: three concurrent writes of item masks 2, 4, 8 at three leaders, merged in two
+    different orders, give 14 both times -/
+example :
+    let a : ML.Version := ⟨2, 10, 0, [1, 0, 0]⟩
+    let b : ML.Version := ⟨4, 11, 1, [0, 1, 0]⟩
+    let c : ML.Version := ⟨8, 12, 2, [0, 0, 1]⟩
+    MLM.AllConcurrent 3 .union none [a, b, c] = true ∧ MLM.AllConcurrent 3 .union none [c, a, b] = true ∧
+    MLM.valD (MLM.mergeAll 3 .union none [a, b, c]) = 14 ∧ MLM.valD (MLM.mergeAll 3 .union none [c, a, b]) = 14 := by
+  decide
+
+/-- equal clocks: `_install` joins the values and keeps the clock -/
+theorem mlm_same_clock_install_is_join (s : MLM.St) (i k : Nat) (e inc : ML.Version)
+    (he : s.vers i k = some e) (hs : MLM.SameClock s.n e inc) :
+    (MLM.install s i k inc).1.store i k = some (MLM.joinVal s.join e.val inc.val) ∧
+    ∃ u, (MLM.install s i k inc).1.vers i k = some u ∧ u.val = MLM.joinVal s.join e.val inc.val ∧
+      MLM.SameClock s.n u e := by
+  obtain ⟨ht, hv, hc⟩ := MLM.pick_same_clock s.n s.join e inc hs
+  have h := mlm_install_is_pick s i k inc
+  have h2 : (MLM.install s i k inc).2 = true := by unfold MLM.install; rw [he, if_pos ht]
+  refine ⟨?_, MLM.pick s.n s.join (some e) inc, ?_, hv, hc⟩
+  · rw [h.2.1 h2, he, hv]
+  · rw [h.1, he]; unfold MLM.mergeOpt; rw [if_pos ht]
+
+/-- **complete gossip ⇒ agreement**, for both joins: if the requests (each a snapshot of its sender
+    at the tick, merged by its receiver later, in any interleaving and with any extra traffic of
+    values below the global join) carry every leader's value to every leader, all leaders end on
+    the same value — the join of everything. -/
+theorem mlm_gossip_complete_converges (j : MLM.Join) (n : Nat) (x0 : Nat → Nat) (evs : List MLM.GEv)
+    (he : ∀ e, e ∈ evs → MLM.EvOK j n (MLM.bigJoin j x0 n) e)
+    (hc : MLM.Complete n (MLM.grun j (MLM.ginit x0) evs)) (i i' : Nat) (hi : i < n) (hi' : i' < n) :
+    (MLM.grun j (MLM.ginit x0) evs).x i = (MLM.grun j (MLM.ginit x0) evs).x i' := by
+  rw [MLM.gossip_complete_converges j n x0 evs he hc i hi, MLM.gossip_complete_converges j n x0 evs he hc i' hi']
+
+/-- non-vacuity: leaders holding 12, 12, 14; two crossing requests 0 → 1 and 2 → 1, then 1 → 0 and
+    1 → 2 (the second round carries leader 2's items to leader 0): complete, all end on 14 -/
+example :
+    let x0 : Nat → Nat := fun i => if i = 2 then 14 else 12
+    let evs : List MLM.GEv := [.tick 0 0, .tick 1 2, .recv 1 1, .recv 0 1, .tick 2 1, .tick 3 1, .recv 2 0, .recv 3 2]
+    (∀ i < 3, ∀ h < 3, h ∈ (MLM.grun .union (MLM.ginit x0) evs).k i) ∧
+    (MLM.grun .union (MLM.ginit x0) evs).x 0 = 14 ∧ (MLM.grun .union (MLM.ginit x0) evs).x 2 = 14 := by
+  decide
+
+/-- three leaders, key 0, union resolver — a run recorded from the real `LeaderNode`s: leader 0 writes
+    item mask 2, leader 1 writes 4 concurrently, leader 0 overwrites with 8.  Leader 2 receives
+    2, 4, 8 in that order and merges 2 ∪ 4 ∪ 8; at leader 1 the `Replicate` of 8 overtakes the one of 2
+    (which is then dominated and dropped). -/
+def mlmWitness : List Act :=
+  [.tick 1, .cw 0 0 0 2, .rs 0, .rs 0, .tick 2, .cw 1 1 0 4, .rs 1, .rs 1, .tick 3, .cw 2 0 0 8, .rs 2,
+   .dl 1, .rs 2, .rs 3, .dl 3, .rs 4, .dl 4, .rs 5, .dl 5, .rs 6, .dl 2, .rs 7, .dl 0]
+
+/-- delivering every `Replicate` is not enough with a merging resolver: the run is quiescent, all
+    three leaders carry the clock `[2,1,0]`, and leaders 0, 1 hold `8 ∪ 4` while leader 2 holds
+    `2 ∪ 4 ∪ 8`.  (So the convergence clause is judged after anti-entropy.) -/
+theorem mlm_replicate_order_matters :
+    MLM.quiescentB (MLM.run (MLM.init 3 1 .union) mlmWitness) = true ∧
+    (MLM.run (MLM.init 3 1 .union) mlmWitness).err = none ∧
+    (MLM.run (MLM.init 3 1 .union) mlmWitness).store 0 0 = some 12 ∧
+    (MLM.run (MLM.init 3 1 .union) mlmWitness).store 1 0 = some 12 ∧
+    (MLM.run (MLM.init 3 1 .union) mlmWitness).store 2 0 = some 14 := by
+  decide
+
+/-- … and one anti-entropy request 2 → 0 followed by one 0 → 1 repairs it: all leaders on 14 -/
+example :
+    let s := MLM.run (MLM.init 3 1 .union) (mlmWitness ++ [.ae 2 0, .rs 9, .dl 6, .rs 10, .ae 0 1, .rs 11, .dl 7, .rs 12])
+    s.err = none ∧ s.store 0 0 = some 14 ∧ s.store 1 0 = some 14 ∧ s.store 2 0 = some 14 := by
+  decide
+
+/-- **Merging resolver, run level: at quiescence all leaders carry the same vector clock.**  For every
+    action list of the `MLM` transition system — writes at any leaders, `Replicate` and anti-entropy
+    messages delivered in any order and any number of times, handlers resumed in any order — and with
+    no hypothesis on timestamps or versions: once every message is delivered and every handler has
+    finished, for every key all leaders hold a version with the same clock (pointwise, on the `n`
+    leaders), a leader lacks a key only if all do, and every store holds the value of its version.
+    (The *values* may still differ — `mlm_replicate_order_matters` — but from here on `_install` between
+    any two leaders is the pure join, `mlm_same_clock_install_is_join`.) -/
+theorem mlm_quiescent_clocks_agree (n nk : Nat) (jn : MLM.Join) (acts : List Act)
+    (hq : MLM.quiescentB (MLM.run (MLM.init n nk jn) acts) = true) (i j k : Nat) (hi : i < n) (hj : j < n) :
+    (∀ c, c < n → MLM.clk ((MLM.run (MLM.init n nk jn) acts).vers i k) c =
+      MLM.clk ((MLM.run (MLM.init n nk jn) acts).vers j k) c) ∧
+    (((MLM.run (MLM.init n nk jn) acts).vers i k).isSome = ((MLM.run (MLM.init n nk jn) acts).vers j k).isSome) ∧
+    (MLM.run (MLM.init n nk jn) acts).store i k = ((MLM.run (MLM.init n nk jn) acts).vers i k).map (·.val) :=
+  MLM.quiescent_clocks_agree n nk jn acts hq i j k hi hj
+
+/-- … and every leader's clock covers every written version of the key (no write is unseen) -/
+theorem mlm_quiescent_covers (n nk : Nat) (jn : MLM.Join) (acts : List Act)
+    (hq : MLM.quiescentB (MLM.run (MLM.init n nk jn) acts) = true) (k : Nat) (w : ML.Version)
+    (hw : MLM.Written (MLM.run (MLM.init n nk jn) acts) k w) (i : Nat) (hi : i < n) :
+    ∃ u, (MLM.run (MLM.init n nk jn) acts).vers i k = some u ∧ ∀ c, c < n → ML.vcGet w.vc c ≤ ML.vcGet u.vc c :=
+  MLM.quiescent_covers n nk jn acts hq k w hw i hi
+
+/-- non-vacuity: the recorded run is quiescent, the three leaders agree on the clock `[2,1,0]` -/
+example :
+    MLM.quiescentB (MLM.run (MLM.init 3 1 .union) mlmWitness) = true ∧
+    (∀ i < 3, ∀ c < 3, MLM.clk ((MLM.run (MLM.init 3 1 .union) mlmWitness).vers i 0) c = [2, 1, 0].getD c 0) := by
+  decide
 
 end HappyModel.C17
